@@ -51,6 +51,9 @@ func parseScopeAnswer(ans string) ([]scopeOcc, error) {
 		o.t = strings.TrimPrefix(f[6], "T=")
 		fmt.Sscanf(strings.TrimPrefix(f[7], "F="), "%d", &o.flevel)
 		o.init = strings.TrimPrefix(f[8], "I=")
+		if o.init == "-" { // the driver writes an absent initialiser as "-"
+			o.init = ""
+		}
 		out = append(out, o)
 	}
 	return out, nil
